@@ -2917,6 +2917,8 @@ impl Connection {
                 Frame::Padding | Frame::Ping => {}
                 Frame::Close(reason) => {
                     close = Some(reason);
+                    // The peer has ended the connection: nothing that follows is acted on
+                    break;
                 }
                 Frame::PathChallenge(token) => {
                     self.path_responses.push(number, token, remote, packet_len);
